@@ -29,7 +29,10 @@ func (k Keeper) PlaceDutchAuctionBid(ctx sdk.Context, auctionID uint64, bidder s
 		return 0, types.ErrorInGettingLockedVault
 	}
 	//Price data of the token from market module
-	debtToken, _ := k.market.GetTwa(ctx, auctionData.DebtAssetId)
+	debtToken, found := k.market.GetTwa(ctx, auctionData.DebtAssetId)
+	if !found || !debtToken.IsPriceActive {
+		return bidId, auctionsV2types.ErrorPriceNotFound
+	}
 	debtPrice := sdk.NewDecFromInt(sdk.NewInt(int64(debtToken.Twa)))
 	//only if debt token is CMST , we consider it as $1
 	if liquidationData.IsDebtCmst {
